@@ -670,7 +670,7 @@ def _run_pair_case(ctx, case, loop, digest_out) -> None:
                 identity_address_type=(None if cfg[side]['id'] is None else PairingConfig.AddressType(cfg[side]['id'])),
             )
             node.device.pairing_config_factory = lambda connection, config=config: config
-        if not isinstance(w[0].device.keystore, object) or not hasattr(w[0].device.keystore, 'all_keys'):
+        if not all(hasattr(n.device.keystore, 'all_keys') for n in w.nodes):
             raise HarnessError('devices do not use an in-memory key store')
         st_.update(w=w, conn={'c': conn_c, 'p': conn_p}, delegates=delegates, shared=shared)
 
@@ -758,6 +758,8 @@ def _run_pair_case(ctx, case, loop, digest_out) -> None:
     labels.add(f'io:{cfg["c"]["io"]}x{cfg["p"]["io"]}:{"sc" if sc_cfg else "legacy"}')
     labels.add(f'method:{ref_method}')
     labels.add(f'start:{case["start"]}')
+    if case['reconnect']:
+        labels.add('reconnect_requested')
     if case['delays_c'] and any(case['delays_c']) or case['delays_p'] and any(case['delays_p']):
         labels.add('delayed')
 
@@ -1006,6 +1008,26 @@ def _run_pair_case(ctx, case, loop, digest_out) -> None:
             conn = r['conn']
         labels.add('reconnected')
 
+    # classes of the generated input (independent of what the stack did): used for the floors
+    gen = []
+    if not ans['p']['accept']:
+        gen.append('reject')
+    if ref_method == NC and not (ans['c']['compare'] and ans['p']['compare']):
+        gen.append('compare_no')
+    if ref_method == PK:
+        typists = {'i': 'p', 'r': 'c', 'both_input': 'cp'}[ref_roles]
+        typed = [ans[s]['passkey'] for s in typists]
+        if 'none' in typed:
+            gen.append('passkey_none')
+        if 'wrong' in typed and typed != ['wrong', 'wrong']:
+            gen.append('passkey_wrong')
+    if case['fault']:
+        gen.append('corrupt')
+    for e in gen:
+        labels.add(f'expect:{e}')
+    if not gen:
+        labels.add('expect:success')
+
     asymmetric = any(cfg['c'][k] != cfg['p'][k] for k in ('io', 'sc', 'mitm', 'bond', 'ikd', 'rkd'))
     if asymmetric:
         labels.add('asymmetric')
@@ -1167,8 +1189,8 @@ def run(ctx) -> None:
     strata = [(i, r, sc) for i in range(5) for r in range(5) for sc in (False, True)]
     # per stratum: plain / negative answers / corrupted PDU / reconnection
     per = {
-        'plain': ctx.n(7, 16000 // 50), 'negative': ctx.n(9, 12000 // 50),
-        'fault': ctx.n(6, 8000 // 50), 'reconnect': ctx.n(5, 5000 // 50),
+        'plain': ctx.n(10, 48000 // 50), 'negative': ctx.n(12, 36000 // 50),
+        'fault': ctx.n(9, 24000 // 50), 'reconnect': ctx.n(7, 16000 // 50),
     }
     digests: list = []
     for k, (io_c, io_p, sc) in enumerate(strata):
@@ -1196,10 +1218,9 @@ def run(ctx) -> None:
         ctx.floor(f'io:{io_c}x{io_p}:{"sc" if sc else "legacy"}', 1)
     for label, n in (
         ('method:just_works', 20), ('method:passkey', 20), ('method:numeric_comparison', 5),
-        ('outcome:paired', 50), ('outcome:failed', 20), ('cause:reject', 3), ('cause:confirm_no', 2),
-        ('cause:compare_no', 2), ('cause:passkey_wrong', 3), ('cause:passkey_none', 2), ('cause:corrupt', 10),
-        ('reconnect:same', 10), ('reconnect:swapped', 10), ('start:secreq', 20), ('delayed', 50),
-        ('asymmetric', 100), ('prebond', 20), ('table:passkey_roles:both_input', 1),
+        ('expect:success', 100), ('expect:reject', 5), ('expect:compare_no', 2), ('expect:passkey_wrong', 5),
+        ('expect:passkey_none', 5), ('expect:corrupt', 50), ('reconnect_requested', 50), ('start:secreq', 20),
+        ('delayed', 50), ('asymmetric', 100), ('prebond', 20), ('table:passkey_roles:both_input', 1),
     ):
         ctx.floor(label, n)
 
